@@ -115,3 +115,130 @@ def drive(tier, seed, features=(), release=False, extra_args=(), label="drive"):
            "wall_s": round(time.time() - t0, 1), "cached": False}
     cache_put(label, key, res)
     return res
+
+
+def boundary(tier, seed, features=(), release=False):
+    """Deterministic overflow histories (preset hook) validated against the contract."""
+    feats = tuple(sorted(features))
+    key = key_of("boundary", repo_hash(), verif_hash(), feats, release)
+    c = cache_get("boundary", key)
+    if c:
+        c["cached"] = True
+        return c
+    t0 = time.time()
+    binp = build_harness(feats, release)
+    trace = os.path.join(_trace_dir(), "boundary-%s.ndjson" % key[:10])
+    rc, out, dt = sh([binp, "boundary", "--out", trace], timeout=900, check=False)
+    if rc != 0:
+        with open(trace, "a") as f:
+            f.write(json.dumps({"op": "crash", "phase": "process", "during": "boundary", "signal": -rc if rc < 0 else rc}) + "\n")
+    viol, st = validate_trace(trace)
+    n, ops = _count_ops(trace)
+    panics = 0
+    with open(trace) as f:
+        for line in f:
+            if '"out":["p"]' in line:
+                panics += 1
+    res = {"engine": "boundary", "cfg": cfg_name(feats, release), "traces": 1, "runs": ops.get("reset", 0),
+           "events": n, "ops": ops, "panic_outcomes": panics,
+           "tlc_states": st.get("distinct", 0), "tlc_transitions": st.get("generated", 0),
+           "violations": _collect(trace, viol, {"engine": "boundary", "features": list(feats), "release": release}),
+           "samples": _sample_events(trace, 2), "wall_s": round(time.time() - t0, 1), "cached": False}
+    if not viol:
+        os.remove(trace)
+    cache_put("boundary", key, res)
+    return res
+
+
+def _nest_sexpr(hist):
+    """Turn a BorrowMC history into the s-expression forest the harness executes."""
+    out, depth = [], 0
+    for ev in hist:
+        if ev[0] == "enter":
+            x, outcome = ev[1], ev[2]
+            out.append("(%s %s %s %s %d" % (x["k"], x["a"], x["c"], x["m"], x["e"]))
+            depth += 1
+            leaf = not ev[4]   # no body: clone, empty iteration, refused
+            if leaf:
+                out.append(")")
+                depth -= 1
+        else:
+            out.append(")")
+            depth -= 1
+    out.append(")" * depth)
+    return " ".join(out)
+
+def borrow(tier, seed):
+    """C11: BorrowMC (TLC) enumerates every access nesting; each is executed on the real crate."""
+    key = key_of("borrow", repo_hash(), verif_hash(), tier)
+    c = cache_get("borrow", key)
+    if c:
+        c["cached"] = True
+        return c
+    t0 = time.time()
+    binp = build_harness((), False)
+    depth = 2 if tier == "quick" else 3
+    total = {"scripts": 0, "states": 0, "trans": 0, "panic_expected": 0, "nested": 0}
+    violations, samples = [], []
+    for cfgname, empty in (("NoneEmpty", False), ("ArEmpty", True)):
+        cfg = os.path.join(BUILD, "tlc", "BorrowMC-%s-%d.cfg" % (cfgname, depth))
+        os.makedirs(os.path.dirname(cfg), exist_ok=True)
+        with open(cfg, "w") as f:
+            f.write("SPECIFICATION Spec\nCONSTANTS\n  MaxEnters = %d\n  MaxDepth = %d\n  ArchCols <- DefArchCols\n"
+                    "  Empty <- %s\n  Ents <- TwoEnts\nINVARIANTS CellsMatchStack NoAliasing FreeAtRest Export\nCHECK_DEADLOCK FALSE\n"
+                    % (depth, depth, cfgname))
+        rc, out, dt = run_tlc("BorrowMC", cfg=cfg, workers=4 if tier == "quick" else 8, timeout=3000)
+        if "No error has been found" not in out:
+            raise ToolError("BorrowMC failed:\n" + out[-3000:])
+        st = tlc_stats(out)
+        total["states"] += st.get("distinct", 0)
+        total["trans"] += st.get("generated", 0)
+        hists = []
+        for m in re.finditer(r'<<"NEST", "(.*)">>', out):
+            hists.append(json.loads(m.group(1).encode().decode("unicode_escape")))
+        sfile = os.path.join(_trace_dir(), "nest-%s-%s.txt" % (cfgname, key[:8]))
+        with open(sfile, "w") as f:
+            for h in hists:
+                f.write(_nest_sexpr(h) + "\n")
+        ofile = sfile + ".out"
+        rc, o2, dt = sh([binp, "nest", "--in", sfile, "--out", ofile] + (["--ar-empty"] if empty else []), timeout=3000, check=False)
+        if rc != 0:
+            violations.append({"tags": ["C11", "C03", "C10"], "what": "harness died executing borrow nestings (rc=%d)" % rc,
+                               "at": 0, "event": {}, "origin": {"engine": "borrow", "cfg": cfgname}})
+            continue
+        with open(ofile) as f:
+            obs = [json.loads(l) for l in f]
+        if len(obs) != len(hists):
+            raise ToolError("nest: %d scripts, %d results" % (len(hists), len(obs)))
+        for i, (h, o) in enumerate(zip(hists, obs)):
+            exp = [[e[2], e[3]] for e in h if e[0] == "enter"]
+            total["scripts"] += 1
+            if any(e[0] == "panic" for e in exp):
+                total["panic_expected"] += 1
+            if len(exp) > 1:
+                total["nested"] += 1
+            what = None
+            if o["obs"] != exp:
+                got_p = [x[0] for x in o["obs"]]
+                exp_p = [x[0] for x in exp]
+                if got_p != exp_p:
+                    what = "access granted/refused differently from the RefCell matrix: expected %s, observed %s" % (exp_p, got_p)
+                else:
+                    what = "nested accesses observed other values than the model: expected %s, observed %s" % (exp, o["obs"])
+            elif not all(o["free"]) or not o["clone_ok"]:
+                what = "a column is still borrowed after the accesses ended (free=%s clone_ok=%s)" % (o["free"], o["clone_ok"])
+            if what:
+                violations.append({"tags": ["C11"], "what": what, "at": i,
+                                   "event": {"script": _nest_sexpr(h), "expected": exp, "observed": o},
+                                   "origin": {"engine": "borrow", "cfg": cfgname, "depth": depth}})
+            if len(samples) < 3 and len(exp) == depth and i % 997 == 3:
+                samples.append({"script": _nest_sexpr(h), "expected": exp, "observed": o["obs"]})
+        os.remove(sfile)
+        os.remove(ofile)
+    res = {"engine": "borrow", "cfg": "dbg", "tier": tier, "traces": total["scripts"], "depth": depth,
+           "scripts": total["scripts"], "scripts_with_refusal": total["panic_expected"], "scripts_multi_access": total["nested"],
+           "tlc_states": total["states"], "tlc_transitions": total["trans"],
+           "violations": violations[:50], "n_violations": len(violations), "samples": samples,
+           "wall_s": round(time.time() - t0, 1), "cached": False, "exhaustive": True}
+    cache_put("borrow", key, res)
+    return res
